@@ -1,6 +1,9 @@
 package tubes
 
-import "encoding/binary"
+import (
+	"encoding/binary"
+	"errors"
+)
 
 type frame struct {
 	ackNo      uint32
@@ -116,13 +119,36 @@ func (p *frame) toBytes() []byte {
 	)
 }
 
+// errMalformedFrame is returned by fromBytes for a message that is shorter than
+// a frame header or than the data length its header announces.
+var errMalformedFrame = errors.New("malformed frame")
+
+const (
+	frameHeaderLen         = 12
+	initiateFrameHeaderLen = 10
+)
+
 func fromBytes(b []byte) (*frame, error) {
+	if len(b) < initiateFrameHeaderLen {
+		return nil, errMalformedFrame
+	}
+	if len(b) < frameHeaderLen {
+		// Initiate frames have a 10 byte header. The muxer parses every message
+		// as a frame first and re-parses initiate frames from frame.toBytes(),
+		// so zero-extend instead of reading past the end of the message.
+		padded := make([]byte, frameHeaderLen)
+		copy(padded, b)
+		b = padded
+	}
 	dataLength := binary.BigEndian.Uint16(b[2:4])
+	if len(b)-frameHeaderLen < int(dataLength) {
+		return nil, errMalformedFrame
+	}
 	return &frame{
 		tubeID:     b[0],
 		flags:      metaToFlags(b[1]),
 		dataLength: dataLength,
-		data:       append([]byte(nil), b[12:12+dataLength]...),
+		data:       append([]byte(nil), b[frameHeaderLen:frameHeaderLen+int(dataLength)]...),
 		ackNo:      binary.BigEndian.Uint32(b[4:8]),
 		frameNo:    binary.BigEndian.Uint32(b[8:12]),
 	}, nil
